@@ -69,26 +69,19 @@ def parseOp (op : String) : Option Op :=
   | ["lr", r] => do some (.lr (← num? r 0 99))
   | _ => none
 
-def runOps (cfg : Cfg) : Node → List String → List String → Option (Node × List String)
-  | n, acc, [] => some (n, acc.reverse)
-  | n, acc, o :: os =>
-    match parseOp o with
-    | none => none
-    | some op =>
-      match step? cfg n op with
-      | none => none
-      | some (n', r) => runOps cfg n' (r :: acc) os
-
-def prefixes (db : DB) : List Entry → List DB
-  | [] => [db]
-  | e :: es => db :: prefixes (db.apply e) es
+def parseOps : List String → Option (List Op)
+  | [] => some []
+  | o :: os => do
+    let op ← parseOp o
+    let rest ← parseOps os
+    some (op :: rest)
 
 def step (line : String) : String :=
   if line = "genesis" then showLog genesisLog ++ "|" ++ showOutcome (restart base)
   else
     let ops := line.splitOn ";"
     if ops.length > 40 then "bad-op"
-    else match runOps {} init [] ops with
+    else match (parseOps ops).bind (runOps {} init []) with
       | none => "bad-op"
       | some (n, results) =>
         ";".intercalate results ++ "|" ++ showLog n.log ++ "|" ++
